@@ -516,6 +516,16 @@ func (s *SQLiteStore) streamBatch(
 		}
 	}
 
+	// Next() returning false means "exhausted" only if no iteration error
+	// occurred: a failed iteration must not be mistaken for a short (final)
+	// batch, or the stream would end silently on a truncated log.
+	if err := rows.Err(); err != nil {
+		rows.Close() // Best effort close, iteration error takes precedence
+		*iterErr = fmt.Errorf("sqlite: iterate events: %w", err)
+		yield(nil, *iterErr)
+		return batchCount, lastPos, false
+	}
+
 	if err := rows.Close(); err != nil {
 		*iterErr = fmt.Errorf("sqlite: close rows: %w", err)
 		yield(nil, *iterErr)
